@@ -10,9 +10,16 @@ RULE = ("cparam: the compression object filled from a seeded structured generato
         "method 0..7, optimise / arithmetic / progressive, restart interval to 70000 and in rows, arithmetic conditioning values, JFIF / "
         "Adobe marker fields.  xcoef: jpeg_write_coefficients with +-1023..+-32768 in every position / at DC / at 63, all modes, hostile "
         "tables.  Verdict: error_exit, or success with a stream SOI..EOI that jpeg_read_header + full decompression at the file's "
-        "precision accept without warning at the requested dimensions; sanitizer reports, crashes and time-outs are failures")
+        "precision accept without warning at the requested dimensions; sanitizer reports, crashes and time-outs are failures.  vscript: "
+        "scan scripts handed to jpeg_start_compress (valid progressive / sequential / lossless scripts for 1..10 components at 8 and 12 "
+        "bits, one- and two-step mutations of them - Ss/Se/Ah/Al off by one, component lists reversed / duplicated / out of range, "
+        "comps_in_scan 0, -1, 5, scans dropped, swapped, repeated - and random hostile ones): the Lean model of validate_script must give "
+        "the same error code, offending scan number and mode, and must predict the JWRN_BOGUS_PROGRESSION count of the real decoder on "
+        "the file the real compressor wrote; every accepted script is completed into a file and decoded by the own decoder")
 TRUSTED = ["the theorems cover the decision logic that can be stated on the model (block size bound against the generated BUFSIZE, "
-           "compressor-accepted Huffman tables are decompressor-accepted); the parameter space itself is explored on the real code only"]
+           "compressor-accepted Huffman tables are decompressor-accepted, accepted progressive scan scripts pass the decoder's progression "
+           "checks - Model.ScanScript is a line-by-line model of validate_script and of start_pass_phuff_decoder's checks, tied by vscript); "
+           "the rest of the parameter space is explored on the real code only"]
 ASSUMPTIONS = ["the application passes a compression object created by jpeg_create_compress and image data of the declared size"]
 
 
@@ -157,11 +164,13 @@ MANIFEST = {
     "text": ("Kernel-checked Lean theorems on the block coder model: for every valid table pair and every block with coefficient magnitudes "
              "below 2^15, the encoded block plus up to 63 pending bits never needs more bytes than the local output buffer of "
              "encode_one_block (BUFSIZE, regenerated from the source), even if every byte is stuffed; every Huffman table the compressor's "
-             "table builder accepts is accepted by the decompressor's; the block round-trips (C03).  The parameter space of the compression "
+             "table builder accepts is accepted by the decompressor's; the block round-trips (C03); every scan script that validate_script "
+             "(modelled line by line and tied to the real function on valid, mutated and hostile scripts) accepts as progressive is taken by "
+             "the own progressive decoder without JERR_BAD_PROGRESSION and without a single JWRN_BOGUS_PROGRESSION.  The parameter space of the compression "
              "object - valid and hostile values of every settable field - is explored on the real library under ASan/UBSan with a per-call "
              "watchdog; every success must be a complete stream its own decompressor takes without warning."),
     "design_ref": "DESIGN.md 6.17",
-    "note": ("Partial: parameter validation in jcmaster/jcinit is exercised, not modelled. Trusted: Lean kernel; axioms propext, Quot.sound, "
+    "note": ("Partial: of the parameter validation in jcmaster/jcinit the scan-script part is modelled and proved against the decoder's checks; the rest is exercised, not modelled. Trusted: Lean kernel; axioms propext, Quot.sound, "
              "Classical.choice; sanitizers as observers of memory safety."),
-    "technique": "Lean 4 proof (bit-count induction over the block coder, table-builder agreement) + structured parameter-space exploration of the real compressor under sanitizers",
+    "technique": "Lean 4 proof (bit-count induction over the block coder, table-builder agreement, scan-script validator vs decoder progression checks) + structured parameter-space exploration of the real compressor under sanitizers",
 }
